@@ -150,13 +150,13 @@ Qed.
 
 (* ---------- exact acceptance of one transfer ---------- *)
 Lemma l_enforce_data_exact c nw i d amt :
-  1 <= nw -> lrel nw i d -> nonneg_log (gi_log i) = true -> 0 <= amt ->
+  1 <= nw -> lrel nw i d -> nonneg_log (stored i) = true -> 0 <= amt ->
   sd_limit d <= MAX128 -> sd_cached d <= MAX128 ->
   is_ok (l_enforce_data c nw d amt) = l_fits (max_history c) nw (gi_limit i) (gi_period i) (gi_log i) amt.
 Proof.
   intros Hnw [H1 H2 H3 H4 H5 H6 H7 H8] Hnn Hamt Hlim Hc.
-  apply nonneg_log_forall in Hnn.
-  assert (Hhn : Forall (fun e => 0 <= fst e) (sd_hist d)) by (rewrite H4; apply newer_forall; exact Hnn).
+  apply nonneg_log_forall in Hnn. unfold stored in Hnn.
+  assert (Hhn : Forall (fun e => 0 <= fst e) (sd_hist d)) by (rewrite H4; exact Hnn).
   destruct (cleanup_nonneg_ok (sat_sub nw (sd_period d)) (sd_hist d) Hhn 0 ltac:(lia) ltac:(lia)) as (removed & h & Ec).
   unfold l_enforce_data. rewrite Ec. cbn [bind].
   assert (Hs : ledger_sorted (sd_hist d)) by (rewrite H4; apply sorted_filter; exact H7).
@@ -184,7 +184,7 @@ Qed.
 Lemma l_can_exact c s a r ctx sgs i d amt :
   0 < max_history c -> 1 <= now s -> sgs <> [] ->
   kget (a, r) (st_spend s) = Some d -> lrel (now s) i d -> transfer_amount ctx = Some amt ->
-  nonneg_log (gi_log i) = true -> 0 <= amt -> sd_limit d <= MAX128 -> sd_cached d <= MAX128 ->
+  nonneg_log (stored i) = true -> 0 <= amt -> sd_limit d <= MAX128 -> sd_cached d <= MAX128 ->
   is_true_res (l_can_enforce c s a r ctx sgs) =
   l_fits (max_history c) (now s) (gi_limit i) (gi_period i) (gi_log i) amt.
 Proof.
@@ -204,9 +204,21 @@ Proof.
   unfold nonneg_log. rewrite !forallb_forall. intros H Ha e He. apply in_app_or in He as [He|[<-|[]]]; [auto|cbn; lia].
 Qed.
 
+Lemma nonneg_log_app l1 l2 : nonneg_log l1 = true -> nonneg_log l2 = true -> nonneg_log (l1 ++ l2) = true.
+Proof. unfold nonneg_log. rewrite forallb_app. intros H1 H2. apply andb_true_intro. split; assumption. Qed.
+Lemma nonneg_newer_mono c1 c2 l : c1 <= c2 -> nonneg_log (newer c1 l) = true -> nonneg_log (newer c2 l) = true.
+Proof.
+  intros Hc. unfold nonneg_log, newer. rewrite !forallb_forall. intros H e He.
+  apply filter_In in He as [He1 He2]. apply H. apply filter_In. split; [exact He1|lia].
+Qed.
+Lemma nonneg_log_newer c l : nonneg_log l = true -> nonneg_log (newer c l) = true.
+Proof.
+  unfold nonneg_log, newer. rewrite !forallb_forall. intros H e He. apply filter_In in He as [He _]. auto.
+Qed.
+
 Lemma l_batch_exact_ok c au a r sgs : forall ctxs s d i,
   1 <= now s -> linv s -> kget (a, r) (st_spend s) = Some d -> lrel (now s) i d ->
-  nonneg_log (gi_log i) = true -> nonneg_ctxs ctxs = true -> ctxs <> [] ->
+  nonneg_log (stored i) = true -> nonneg_ctxs ctxs = true -> ctxs <> [] ->
   is_ok (enforce_batch c PL s au a r sgs ctxs) =
   has_auth au a && (match sgs with [] => false | _ => true end) &&
   l_batch_exact (max_history c) (now s) (gi_limit i) (gi_period i) ctxs (gi_log i).
@@ -228,7 +240,10 @@ Proof.
   { unfold s1. apply linv_set; [exact Hlin|]. destruct (l_enforce_data_range _ _ _ _ _ Ed) as [E3 E4]. rewrite E3. auto. }
   destruct rest as [|c2 rest2].
   - cbn [enforce_batch bind fst snd is_ok l_batch_exact]. subst sgs. reflexivity.
-  - assert (Hnn1 : nonneg_log (gi_log (inst_push (now s) i amt)) = true) by (cbn [inst_push gi_log]; apply nonneg_log_snoc; assumption).
+  - assert (Hnn1 : nonneg_log (stored (inst_push (now s) i amt)) = true).
+    { unfold stored. cbn [inst_push gi_log gi_cut]. rewrite newer_app. apply nonneg_log_app.
+      - apply (nonneg_newer_mono (gi_cut i)); [exact (lr_cut _ _ _ Hrel)|exact Hnn].
+      - unfold newer. cbn [filter snd]. destruct (now s - gi_period i <? now s); cbn; [|reflexivity]. replace (0 <=? amt) with true by lia. reflexivity. }
     specialize (IH s1 d1 (inst_push (now s) i amt) Hn Hlin1 Hk1 Hrel1 Hnn1 Hc2 ltac:(discriminate)).
     cbn [andb] in IH. cbn [inst_push gi_limit gi_period gi_log] in IH.
     change (now s1) with (now s) in IH.
@@ -241,13 +256,13 @@ Qed.
 Lemma l_can_value c s a r ctx sgs i d amt :
   0 < max_history c -> 1 <= now s -> sgs <> [] ->
   kget (a, r) (st_spend s) = Some d -> lrel (now s) i d -> transfer_amount ctx = Some amt ->
-  nonneg_log (gi_log i) = true -> 0 <= amt -> sd_limit d <= MAX128 -> sd_cached d <= MAX128 ->
+  nonneg_log (stored i) = true -> 0 <= amt -> sd_limit d <= MAX128 -> sd_cached d <= MAX128 ->
   window_sum (now s) (gi_period i) (gi_log i) + amt <= MAX128 ->
   l_can_enforce c s a r ctx sgs = Ok (l_fits (max_history c) (now s) (gi_limit i) (gi_period i) (gi_log i) amt).
 Proof.
   intros Hmh Hnw Hsg Hd [H1 H2 H3 H4 H5 H6 H7 H8] Ha Hnn Hamt Hlim Hc Hsum.
-  apply nonneg_log_forall in Hnn.
-  assert (Hhn : Forall (fun e => 0 <= fst e) (sd_hist d)) by (rewrite H4; apply newer_forall; exact Hnn).
+  apply nonneg_log_forall in Hnn. unfold stored in Hnn.
+  assert (Hhn : Forall (fun e => 0 <= fst e) (sd_hist d)) by (rewrite H4; exact Hnn).
   destruct (cleanup_nonneg_ok (sat_sub (now s) (sd_period d)) (sd_hist d) Hhn 0 ltac:(lia) ltac:(lia)) as (removed & h & Ec).
   unfold l_can_enforce. destruct sgs as [|sg0 sgr]; [contradiction|]. rewrite Hd, Ha, ce_scan_cleanup, Ec.
   assert (Hs : ledger_sorted (sd_hist d)) by (rewrite H4; apply sorted_filter; exact H7).
@@ -274,4 +289,81 @@ Proof.
     + replace (len (e0 :: h0) <? max_history c) with false by lia. rewrite andb_false_r. reflexivity.
     + cbn [bind]. rewrite Hfin. replace (len (e0 :: h0) <? max_history c) with true by lia.
       rewrite andb_true_r. reflexivity.
+Qed.
+
+
+(* ---------- whatever the signs of the amounts: an answer that is not a trap is the exact one ---------- *)
+Lemma l_enforce_data_fits c nw i d amt d' :
+  1 <= nw -> lrel nw i d -> l_enforce_data c nw d amt = Ok d' ->
+  l_fits (max_history c) nw (gi_limit i) (gi_period i) (gi_log i) amt = true.
+Proof.
+  intros Hnw Hrel H. destruct (l_enforce_data_rel c nw i d amt d' Hnw Hrel H) as (_ & _ & Hw).
+  destruct Hrel as [H1 H2 H3 H4 H5 H6 H7 H8]. unfold l_enforce_data in H.
+  destruct (cleanup (sat_sub nw (sd_period d)) (sd_hist d) 0) as [[removed h]|] eqn:Ec; cbn [bind] in H; [|discriminate].
+  destruct (checked_sub (sd_cached d) removed); cbn [of_option bind] in H; [|discriminate].
+  destruct (checked_add z amt); cbn [of_option bind] in H; [|discriminate].
+  destruct (sd_limit d <? z0); [discriminate|].
+  destruct (max_history c <=? len h) eqn:Ecap; [discriminate|].
+  assert (Hs : ledger_sorted (sd_hist d)) by (rewrite H4; apply sorted_filter; exact H7).
+  destruct (cleanup_sorted _ _ Hs _ _ _ Ec) as [Hh _].
+  assert (Hge1 : Forall (fun e => 1 <= snd e) (gi_log i)).
+  { rewrite Forall_forall in *. intros e He. specialize (H8 e He). lia. }
+  assert (Hh' : h = newer (nw - gi_period i) (gi_log i)).
+  { rewrite Hh, H4, H2. apply newer_newer_sat; assumption. }
+  unfold l_fits. rewrite <- Hh'.
+  assert (Hww : window_sum nw (gi_period i) (gi_log i) + amt <= gi_limit i).
+  { unfold window_sum in *. rewrite newer_app, sum_entries_app in Hw. unfold newer at 2 in Hw. cbn [filter snd] in Hw.
+    replace (nw - gi_period i <? nw) with true in Hw by lia. unfold sum_entries at 2 in Hw. cbn [fold_right fst] in Hw. lia. }
+  replace (window_sum nw (gi_period i) (gi_log i) + amt <=? gi_limit i) with true by lia.
+  replace (len h <? max_history c) with true by lia. reflexivity.
+Qed.
+
+Lemma l_batch_fits c au a r sgs : forall ctxs s d i s' evs,
+  1 <= now s -> kget (a, r) (st_spend s) = Some d -> lrel (now s) i d ->
+  enforce_batch c PL s au a r sgs ctxs = Ok (s', evs) ->
+  l_batch_exact (max_history c) (now s) (gi_limit i) (gi_period i) ctxs (gi_log i) = true.
+Proof.
+  induction ctxs as [|ctx rest IH]; intros s d i s' evs Hn Hd Hrel H; [reflexivity|].
+  cbn [enforce_batch enforce_one] in H.
+  destruct (l_enforce_one c s au a r sgs ctx) as [[s1 ev]|] eqn:E1; cbn [bind fst snd] in H; [|discriminate].
+  destruct (enforce_batch c PL s1 au a r sgs rest) as [[s2 evs2]|] eqn:E2; cbn [bind fst snd] in H; [|discriminate].
+  apply l_enforce_one_ok in E1 as (_ & _ & d0 & amt & d1 & Hd0 & Ha & Hd1 & Hs1 & _).
+  rewrite Hd in Hd0. inversion Hd0. subst d0.
+  cbn [l_batch_exact]. rewrite Ha. rewrite (l_enforce_data_fits c (now s) i d amt d1 Hn Hrel Hd1). cbn [andb].
+  destruct (l_enforce_data_rel c (now s) i d amt d1 Hn Hrel Hd1) as (Hrel1 & _ & _).
+  assert (Hk1 : kget (a, r) (st_spend s1) = Some d1) by (subst s1; cbn [st_spend set_spend]; apply kget_set_eq).
+  assert (Hnow1 : now s1 = now s) by (subst s1; reflexivity).
+  specialize (IH s1 d1 (inst_push (now s) i amt) s2 evs2). rewrite Hnow1 in IH.
+  apply (IH Hn Hk1 Hrel1 E2).
+Qed.
+
+Lemma l_can_ok_value c s a r ctx sgs i d amt b :
+  0 < max_history c -> 1 <= now s -> sgs <> [] ->
+  kget (a, r) (st_spend s) = Some d -> lrel (now s) i d -> transfer_amount ctx = Some amt ->
+  l_can_enforce c s a r ctx sgs = Ok b ->
+  b = l_fits (max_history c) (now s) (gi_limit i) (gi_period i) (gi_log i) amt.
+Proof.
+  intros Hmh Hnw Hsg Hd [H1 H2 H3 H4 H5 H6 H7 H8] Ha.
+  unfold l_can_enforce. destruct sgs as [|sg0 sgr]; [contradiction|]. rewrite Hd, Ha, ce_scan_cleanup.
+  destruct (cleanup (sat_sub (now s) (sd_period d)) (sd_hist d) 0) as [[removed h]|] eqn:Ec; cbn [bind]; [|discriminate].
+  assert (Hs : ledger_sorted (sd_hist d)) by (rewrite H4; apply sorted_filter; exact H7).
+  destruct (cleanup_sorted _ _ Hs _ _ _ Ec) as [Hh Hr].
+  assert (Hge1 : Forall (fun e => 1 <= snd e) (gi_log i)).
+  { rewrite Forall_forall in *. intros e He. specialize (H8 e He). lia. }
+  assert (Hh' : h = newer (now s - gi_period i) (gi_log i)).
+  { rewrite Hh, H4, H2. apply newer_newer_sat; assumption. }
+  unfold l_fits, window_sum. rewrite <- Hh'.
+  assert (Hfin : forall b0, (do total <- of_option (checked_sub (sd_cached d) removed);
+                             do sum <- of_option (checked_add total amt); Ok (sum <=? sd_limit d)) = Ok b0 ->
+                            b0 = (sum_entries h + amt <=? gi_limit i)).
+  { intros b0. unfold checked_sub, checked_add, fit128.
+    destruct (in_i128 (sd_cached d - removed)); cbn [of_option bind]; [|discriminate].
+    destruct (in_i128 (sd_cached d - removed + amt)); cbn [of_option bind]; [|discriminate].
+    intros E. inversion E. rewrite H1. f_equal. lia. }
+  destruct h as [|e0 h0].
+  - intros E. rewrite (Hfin b E). unfold len. cbn [length]. replace (Z.of_nat 0 <? max_history c) with true by lia.
+    rewrite andb_true_r. reflexivity.
+  - destruct (max_history c <=? len (e0 :: h0)) eqn:Ecap.
+    + intros E. inversion E. replace (len (e0 :: h0) <? max_history c) with false by lia. rewrite andb_false_r. reflexivity.
+    + intros E. rewrite (Hfin b E). replace (len (e0 :: h0) <? max_history c) with true by lia. rewrite andb_true_r. reflexivity.
 Qed.
